@@ -26,10 +26,11 @@ def levels(tier):
              "rule_patterns": ["path1"], "clear": True},
         ]
     return [
-        {"name": "n2", "n": 2, "alphabet": ["page", "links", "we", "rule", "delwe", "batch", "addprefix", "moveprefix"], "links_batch": 2,
-         "batch_targets": 2, "rule_patterns": ["path1", "subdomain"], "clear": True, "we_two_prefixes": True},
-        {"name": "n3", "n": 3, "alphabet": ["page", "links", "we", "rule", "delwe"], "links_batch": 1, "rule_patterns": ["path1"], "clear": True},
-        {"name": "rule-del", "n": 2, "prelude": [["rule", [1, 3, "path1"]], ["page", 1, False]], "alphabet": ["delwe", "page", "we", "rmprefix"], "clear": True},
+        {"name": "n2-wide", "n": 2, "alphabet": ["page", "links", "we", "rule", "delwe"], "links_batch": 1, "rule_patterns": ["path1"], "clear": True,
+         "tpool": [0, 1]},
+        {"name": "rule-del-n2", "n": 2, "prelude": [["rule", [1, 3, "path1"]], ["page", 1, False]], "alphabet": ["delwe", "page", "we"], "clear": True},
+        {"name": "memory-clear-n3", "n": 3, "alphabet": ["page", "we"], "clear": True, "backend": "memory", "tpool": [0, 1]},
+        {"name": "n3", "n": 3, "alphabet": ["page", "we"], "clear": True, "tpool": [0, 1]},
     ]
 
 
